@@ -124,8 +124,26 @@ fn layout3() -> (u128, u128, u128) {
         N_TOKENS.load(SeqCst) as u128,
     )
 }
+// accounts 1990.. : callers whose NAMES are unusual (too short or too long for the address codec, upper case); they hold
+// nothing and sit outside every roster, to the model they are ordinary strangers
+fn odd_name(id: u128) -> Option<String> {
+    match id {
+        1990 => Some("z".to_string()),
+        1991 => Some("zz".to_string()),
+        1992 => Some("zzz".to_string()),
+        1993 => Some("y".repeat(54)),
+        1994 => Some("y".repeat(55)),
+        1995 => Some("y".repeat(70)),
+        1996 => Some("USER0".to_string()),
+        1997 => Some("y".repeat(91)),
+        _ => None,
+    }
+}
 fn addr_s(id: u128) -> String {
     let (np, nu, nt) = layout3();
+    if let Some(s) = odd_name(id) {
+        return s;
+    }
     if id >= 1000 {
         let k = id - 1000;
         if np > 0 && k < nu && k >= nu - np {
@@ -141,6 +159,9 @@ fn addr_s(id: u128) -> String {
 }
 fn addr_id(s: &str) -> u128 {
     let (np, nu, nt) = layout3();
+    if let Some(id) = (1990..1998u128).find(|i| odd_name(*i).as_deref() == Some(s)) {
+        return id;
+    }
     if let Some(r) = s.strip_prefix("user") {
         1000 + r.parse::<u128>().expect("harness: bad user address")
     } else if let Some(r) = s.strip_prefix("contract") {
@@ -238,6 +259,11 @@ fn xbank(app: &mut App, from: &str, to: &str, coins: &[Coin]) -> anyhow::Result<
 // "tfdenom d u": from the next init on, bank denom d is the token-factory denom of user u: "factory/<address of u>/sub"
 static TF_D: std::sync::atomic::AtomicU64 = std::sync::atomic::AtomicU64::new(u64::MAX);
 static TF_U: std::sync::atomic::AtomicU64 = std::sync::atomic::AtomicU64::new(0);
+// "rogue t p": from the next init on, asset token t (which no pair should trade) names contract p - the address a pair will
+// get - as its MINTER: a counterfeit "share token" of that pair.  Nobody mints it in such a history; the snapshot keeps
+// reporting the minter the model knows (user0), the way code-id copies are kept out of the model.
+static ROGUE_T: std::sync::atomic::AtomicU64 = std::sync::atomic::AtomicU64::new(u64::MAX);
+static ROGUE_P: std::sync::atomic::AtomicU64 = std::sync::atomic::AtomicU64::new(0);
 static LOOK_D: std::sync::atomic::AtomicU64 = std::sync::atomic::AtomicU64::new(u64::MAX);
 static LOOK_T: std::sync::atomic::AtomicU64 = std::sync::atomic::AtomicU64::new(0);
 fn denom_s(d: u128) -> String {
@@ -410,6 +436,31 @@ impl<'a> Cur<'a> {
                 })
                 .unwrap()
             }
+            // a complete Receive ENVELOPE of the pair's execute interface, written by the caller, as the payload of the real
+            // one: envelope sender, envelope amount, then a swap hook (asset, amount, to) - garbage to the model
+            "hraw_precv" => {
+                let snd = self.addr();
+                let amt = self.num();
+                let o = self.asset();
+                let n = self.num();
+                let to = self.opt_addr();
+                let inner = to_binary(&PairHook::Swap {
+                    offer_asset: Asset {
+                        info: o,
+                        amount: n.into(),
+                    },
+                    belief_price: None,
+                    max_spread: None,
+                    to,
+                })
+                .unwrap();
+                to_binary(&PairExecuteMsg::Receive(cw20::Cw20ReceiveMsg {
+                    sender: snd,
+                    amount: amt.into(),
+                    msg: inner,
+                }))
+                .unwrap()
+            }
             "hraw_pdec" => {
                 let d = self.num();
                 let a = self.num();
@@ -509,7 +560,11 @@ impl World {
                     s.push(1);
                     s.push(ti.total_supply.u128());
                     s.push(ti.decimals as u128);
-                    s.push(minter.map(|m| addr_id(&m.minter) + 1).unwrap_or(0));
+                    if ROGUE_T.load(std::sync::atomic::Ordering::SeqCst) as u128 == t {
+                        s.push(1000 + 1); // by convention: the minter the model knows (user0), see "rogue"
+                    } else {
+                        s.push(minter.map(|m| addr_id(&m.minter) + 1).unwrap_or(0));
+                    }
                     for &a in &accounts {
                         let b: BalanceResponse = self
                             .app
@@ -1348,7 +1403,11 @@ fn init(c: &mut Cur) -> World {
                         })
                         .collect(),
                     mint: Some(MinterResponse {
-                        minter: owner.to_string(),
+                        minter: if ROGUE_T.load(std::sync::atomic::Ordering::SeqCst) == 2 + i as u64 {
+                            addr_s(ROGUE_P.load(std::sync::atomic::Ordering::SeqCst) as u128)
+                        } else {
+                            owner.to_string()
+                        },
                         cap: None,
                     }),
                     marketing: None,
@@ -1410,6 +1469,12 @@ pub fn serve() {
             "proxies" => {
                 use std::sync::atomic::Ordering::SeqCst;
                 N_PROXIES.store(c.num() as u64, SeqCst);
+                "ok".to_string()
+            }
+            "rogue" => {
+                use std::sync::atomic::Ordering::SeqCst;
+                ROGUE_T.store(c.num() as u64, SeqCst);
+                ROGUE_P.store(c.num() as u64, SeqCst);
                 "ok".to_string()
             }
             "lookalike" => {
